@@ -31,6 +31,8 @@
  *          7 SHORT(arg bytes, next write on that fd fails ENOSPC)  8 KILL
  *          9 PLAINSHORT(arg bytes)  10 EISDIR 11 ENOENT 12 EAGAIN
  *          20 fail with errno = arg (any errno a deployment can meet: EINVAL, ENOMEM, ESTALE, EFBIG, EDQUOT, ...)
+ *          21 (reads) fail with errno = arg now and on every later read of that descriptor (a device that
+ *             stays broken, a non-blocking pipe that stays empty)
  *
  * Pipe-like descriptors also *look* like pipes: fstat/statx report a FIFO of size 0 and lseek
  * fails with ESPIPE, as for a real pipe or FIFO.
@@ -73,6 +75,7 @@ struct fdinfo {
     int target;
     int pipe;
     int sticky_epipe;
+    int sticky_rerr;
     int pending_enospc;
     long off;
 };
@@ -339,8 +342,19 @@ ssize_t read(int fd, void *buf, size_t count) {
     }
     struct fdinfo *fi = &fds[fd];
     long arg = 0;
-    int action = decide('R', fi->target, &arg);
     long off = fi->off;
+    if (fi->sticky_rerr) {
+        trace_event('R', fd, fi->target, (long)count, -1, fi->sticky_rerr, 21, off);
+        errno = fi->sticky_rerr;
+        return -1;
+    }
+    int action = decide('R', fi->target, &arg);
+    if (action == 21) {
+        fi->sticky_rerr = (int)arg;
+        trace_event('R', fd, fi->target, (long)count, -1, (int)arg, 21, off);
+        errno = (int)arg;
+        return -1;
+    }
     if (action == 8) {
         trace_event('R', fd, fi->target, (long)count, -1, 0, action, off);
         die_now();
